@@ -25,6 +25,7 @@ fixed = [
  ("C06", find("lets the last entry of a repeated key win"), "a map literal with a repeated key built at run time kept the FIRST entry (`{'a': x, 'a': y}` with x = 1, y = 2 gave {'a': 1}) while the same literal folded at compile time keeps the last (`{'a': 1, 'a': 2}` gives {'a': 2}): MkDict inserted the entries in pop order, i.e. last-to-first (mirsym target vm_mkdict, obligation 'run yields the reference's value'; confirmed natively on [Push 11, Push 's', Push 13, Push 's', MkDict 2]; first pointed out by a seeding sub-agent)"),
  ("C13", find("hexadecimal literals accept"), "hexadecimal literals stopped at the first letter digit: `0xff`, `0XAB` were a syntax error (`Failed to parse unsigned int 0x`), `0x0D` lexed as `0x0` followed by an identifier, `0x1e` was taken for a double with an exponent (mirsym targets tok_number_short and tok_number_hex, obligations 'a well-formed int literal becomes an IntLit token' / 'IntLit carries the value the digits spell'; confirmed natively on the literals 0xF and 0X0D)"),
  ("C13", find("integer literal above the int64 range"), "an integer literal above i64::MAX wrapped instead of being rejected: `9223372036854775808` evaluated to -9223372036854775808 and `18446744073709551615` to -1 (`IntLit(u64) as i64` in parse_primary). Found by mirsym target parse_intlit once the parser became executable (obligation 'an integer literal above the int64 range is rejected'), confirmed natively. The repair makes such a literal a syntax error; `-9223372036854775808` is therefore still not spellable as a literal (it was an overflow error before as well) - see DESIGN.md section 4"),
+ ("C05", find("chooses by the truthiness of c"), "the run-time form of `c ? x : y` jumped on the raw value of c: with c = 2 the result was the error `JMP TRUE invalid on type int` instead of x, with a failing c (unbound variable, 1/0) the false branch was evaluated and its value returned instead of the failure, while the constant-folded form used the truthiness of c and propagated its failure (mirsym target parse_ternary, obligation 'a falsy condition evaluates exactly y; a truthy condition evaluates exactly x; c ? x : y fails when c fails'; confirmed natively on `c ? x : y` with c = 2, x = 3, y = 4)"),
  ("C19", find("never serialized come last"), "a compiled program containing an error constant (e.g. `1 / 0`, `[1, 1 / 0]`) could not be read back from bincode: Serialize wrote CelValue::Err with variant index 15 (17 with protobuf) while Deserialize numbers the non-skipped variants consecutively and expects 14 - `invalid value: integer 15, expected variant index 0 <= i < 15` (mirsym target c19_tags_celvalue, obligation 'index tag of CelValue::Err selects the same variant when read back'; confirmed natively by a bincode round trip)"),
 ]
 p="/verif/known_findings.json"
